@@ -225,7 +225,8 @@ pub fn gen_cfg(seed: u64, case: u64, tier: &str, mode: u8) -> Cfg {
     let nscript = match mode { 0 => r.below(4), 1 => 2 + r.below(8), 2 => 1 + r.below(4), _ => r.below(3) } as usize;
     let mut script = vec![];
     for k in 0..nscript {
-        let op = match mode { 2 => if k % 2 == 0 { 0 } else { 1 }, _ => r.below(5) as u8 };
+        // C12: pause / resume alternating, and (every third case) runs of pauses without a resume in between
+        let op = match mode { 2 => if case % 3 == 2 { if k + 1 == nscript { 1 } else { 0 } } else if k % 2 == 0 { 0 } else { 1 }, _ => r.below(5) as u8 };
         script.push((op, *r.pick(&[0u64, 50, 300, 2000, 8000])));
     }
     let total = num_tune + num_draws;
